@@ -217,7 +217,7 @@ def run(ck):
     res = recs["res"]
     compare("resolve",
             ["((%s, %s), %s)" % (tree_term(r["tree"]), coq_list([hb(p) for p in r.get("patshex", [])]),
-                                 ("Err %d" % r["eclass"]) if r["eclass"] else "Ok " + files_term(r.get("files", [])))
+                                 ("(@Err (list (str * str)) %d)" % r["eclass"]) if r["eclass"] else "Ok " + files_term(r.get("files", [])))
              for r in res],
             "(fun x => resolve (fst x) (snd x))", "res_eqb", res, shard=50)
     dr = recs["dir"]
